@@ -24,6 +24,7 @@ import c12, c15, corpus, families, mutants, tv
 
 LEVEL = "model_checking"
 TIME_LIMIT_S = 60
+INFER_LIMIT_S = 10          # the inference-stress programs are < 20 lines (the unchanged compiler answers each in milliseconds)
 
 
 # ---------------------------------------------------------------- rendering of generated inputs
@@ -93,6 +94,145 @@ def nest(kind, d):
 
 NEST_KINDS = ["paren", "unary", "not", "binchain", "logic", "concat", "call", "ctor", "if", "match", "closure", "letchain", "stmts", "while",
               "type", "fields", "params", "fns", "arms", "variants"]
+
+
+# ---------------------------------------------------------------- packages whose deep structure reaches the emitted Go (every value is used)
+DEEP_PRE = ("package Main\n\nfn id(x: int32) -> int32 { x }\nfn show(x: int32) -> unit { string_println(int32_to_string(x)) }\n"
+            "enum E { L, N(E) }\nfn depth(e: E) -> int32 { match e { L => 0, N(r) => 1 + depth(r) } }\n\nfn main() -> unit {\n")
+
+
+def deep(kind, d):
+    """long-*: one function of d statements; nest-*: one expression nested d levels; nothing in them is dead code, so check, build
+    and link (core IR -> mono -> lift -> ANF -> Go) all walk the whole structure."""
+    b = []
+    if kind == "long-lets":
+        b = ["let x0 = 0;"] + [f"let x{i} = x{i-1} + 1;" for i in range(1, d)] + [f"show(x{d-1})"]
+    elif kind == "long-calls":
+        b = [(f"let _ = show({i});" if i % 2 else f"show({i});") for i in range(d)] + ["()"]
+    elif kind == "long-mixed":
+        b = ["let r = ref(0);", "let x0 = 0;"]
+        for i in range(1, d):
+            b.append([f"let x{i} = x{i-1} + 1;", f"let _ = show(x{i-1});\n    let x{i} = id(x{i-1});",
+                      f"let x{i} = if x{i-1} > 3 {{ x{i-1} - 1 }} else {{ x{i-1} + 2 }};", f"let x{i} = match x{i-1} {{ 0 => 1, _ => x{i-1} }};",
+                      f"let _ = ref_set(r, ref_get(r) + x{i-1});\n    let x{i} = ref_get(r);", f"let c{i} = |a: int32| a + x{i-1};\n    let x{i} = c{i}(1);",
+                      f"let (x{i}, _) = (x{i-1}, {i});"][i % 7])
+        b.append(f"show(x{d-1})")
+    elif kind == "long-nested":          # d statements, each an expression nested 8 levels
+        b = ["let x0 = 0;"] + [f"let x{i} = " + "id(1 + " * 8 + f"x{i-1}" + ")" * 8 + ";" for i in range(1, d)] + [f"show(x{d-1})"]
+    elif kind == "nest-closure":         # closures defined inside closures (an immediately applied closure literal is not goml)
+        b = ["let k = " + "|a: int32| { let c = " * d + "|a: int32| a" + "; a + c(1) }" * d + ";", "show(k(1))"]
+    elif kind == "nest-stmt-if":         # statements inside nested blocks
+        b = ["let r = ref(0);", "let _ = if ref_get(r) >= 0 {\n    let _ = ref_set(r, ref_get(r) + 1);\n    " * d + "()" + ";\n    () } else { () }" * d + ";", "show(ref_get(r))"]
+    else:
+        if kind == "nest-mixed":
+            opens = ["id(1 + ", "(1 + ", "if id(1) > 0 { 1 + ", "match id(1) { 0 => 0, _ => 1 + ", "ref_get(ref(1 + "]
+            closes = [")", ")", " } else { 0 }", " }", "))"]
+            expr = "".join(opens[i % 5] for i in range(d)) + "0" + "".join(closes[i % 5] for i in reversed(range(d)))
+        else:
+            expr = {"nest-call": lambda: "id(1 + " * d + "0" + ")" * d, "nest-paren": lambda: "(1 + " * d + "0" + ")" * d,
+                    "nest-left": lambda: "(" * d + "0" + " + 1)" * d, "nest-chain": lambda: "id(0)" + " + id(1)" * d,
+                    "nest-if": lambda: "if id(1) > 0 { 1 + " * d + "0" + " } else { 0 }" * d,
+                    "nest-match": lambda: "match id(1) { 0 => 0, _ => 1 + " * d + "0" + " }" * d,
+                    "nest-ctor": lambda: "depth(" + "N(" * d + "L" + ")" * d + ")"}[kind]()
+        b = [f"let y = {expr};", "show(y)"]
+    return DEEP_PRE + "    " + "\n    ".join(b) + "\n}\n"
+
+
+DEEP_LONG = ["long-lets", "long-calls", "long-mixed", "long-nested"]
+DEEP_NEST = ["nest-call", "nest-paren", "nest-left", "nest-chain", "nest-if", "nest-match", "nest-closure", "nest-ctor", "nest-stmt-if", "nest-mixed"]
+
+
+# ---------------------------------------------------------------- inference stress: the constraint solver must reach a fixpoint
+INFER_PRE = ("struct Point { x: int32, y: int32 }\nstruct Other { z: int32, x: string }\nstruct Gen[T] { x: T }\nenum Opt { Non, Som(int32) }\n"
+             "trait Show { fn show(Self) -> string; }\nimpl Show for Point { fn show(self: Point) -> string { \"P\" } }\n"
+             "impl Show for int32 { fn show(self: int32) -> string { \"i\" } }\nimpl Point { fn getx(self: Self) -> int32 { self.x } }\n"
+             "fn apply[T, U](f: (T) -> U, v: T) -> U { f(v) }\nfn twice[T](f: (T) -> T, v: T) -> T { f(f(v)) }\n\nfn main() -> unit {\n")
+# what the body of a closure does with its un-annotated parameter (the receiver / operand type is an inference variable when the use is checked)
+INFER_USES = {
+    "field": "{p}.x", "field-other": "{p}.z", "field-chain": "{p}.x.x", "field-of-call": "{p}(1).x", "field-of-field-call": "{p}.x(1)",
+    "method": "{p}.getx()", "trait-method": "{p}.show()", "trait-fn": "show({p})", "method-unknown": "{p}.nothing()",
+    "proj0": "{p}.0", "proj1": "{p}.1", "index": "array_get({p}, 0)", "vec-index": "vec_get({p}, 0)", "deref": "ref_get({p})",
+    "add": "{p} + 1", "add-self": "{p} + {p}", "concat": "{p} + \"s\"", "neg": "-{p}", "not": "!{p}", "and": "{p} && true", "less": "{p} < 2", "eq": "{p} == {p}",
+    "call": "{p}(1)", "call2": "{p}({p})", "match-enum": "match {p} {{ Som(v) => v, Non => 0 }}", "match-tuple": "match {p} {{ (a, b) => a }}",
+    "match-lit": "match {p} {{ 0 => 1, _ => 2 }}", "struct-pat": "match {p} {{ Point {{ x, y }} => x }}", "field-plus-method": "{p}.x + {p}.getx()", "field-and-proj": "({p}.x, {p}.0)",
+    "identity": "{p}",
+}
+# what the closure is applied to: the right kind for some uses, the wrong kind for the others
+INFER_VALUES = {
+    "int": "7", "string": "\"s\"", "bool": "true", "unit": "()", "point": "Point { x: 1, y: 2 }", "other": "Other { z: 1, x: \"s\" }", "gen": "Gen { x: Point { x: 1, y: 2 } }",
+    "tuple": "(1, 2)", "enum": "Som(1)", "array": "[1, 2]", "vec": "vec_push(vec_new(), 1)", "ref": "ref(1)", "fn": "|a: int32| a", "fn-point": "|a: int32| Point { x: a, y: a }",
+}
+
+
+# the kinds of value for which a use is well-typed (the pairs below are drawn half from these, half from all kinds)
+INFER_RIGHT = {
+    "field": ["point", "gen"], "field-other": ["other"], "field-chain": ["gen"], "field-of-call": ["fn-point"], "method": ["point"], "trait-method": ["point", "int"],
+    "trait-fn": ["point", "int"], "proj0": ["tuple"], "proj1": ["tuple"], "index": ["array"], "vec-index": ["vec"], "deref": ["ref"], "add": ["int"], "add-self": ["int", "string"],
+    "concat": ["string"], "neg": ["int"], "not": ["bool"], "and": ["bool"], "less": ["int"], "eq": list(INFER_VALUES), "call": ["fn", "fn-point"], "match-enum": ["enum"],
+    "match-tuple": ["tuple"], "match-lit": ["int"], "struct-pat": ["point"], "field-plus-method": ["point"], "identity": list(INFER_VALUES),
+}
+
+
+def infer_programs(tier, rnd):
+    """[(label, text)], label = form:use:value.  Every program is a few lines; most are ill-typed.  Forms: the closure applied directly,
+    through a second closure, aliased but never applied, applied twice to different kinds, passed to a generic function, defined inside
+    another closure, two closures whose results (or which themselves) are unified."""
+    quick = tier == "quick"
+    out = []
+
+    seen = set()
+
+    def prog(label, lines):
+        if label in seen:
+            return
+        seen.add(label)
+        out.append((label, INFER_PRE + "".join("    " + l + "\n" for l in lines) + "    ()\n}\n"))
+    uses, vals = list(INFER_USES), list(INFER_VALUES)
+    for u in uses:
+        body = INFER_USES[u].format(p="p")
+        g = f"let g = |p| {body};"
+        prog(f"unapplied:{u}:-", [g])
+        prog(f"alias-unapplied:{u}:-", [g, "let h = |q| g(q);"])
+        prog(f"alias2-unapplied:{u}:-", [g, "let h = |q| g(q);", "let k = |r| h(r);", "let m = [h, k];"])
+        prog(f"param-merged:{u}:-", [f"let g = |p, q| {{ let t = if true {{ p }} else {{ q }}; {INFER_USES[u].format(p='q')} }};"])
+        prog(f"let-unannotated-result:{u}:-", [g, "let h = |f| f(1);", "let r = h(g);"])
+        # quick: the right kinds and a seeded four of the wrong ones; thorough: every kind
+        for v in (vals if not quick else [v for v in vals if v in INFER_RIGHT.get(u, [])][:3] + rnd.sample([v for v in vals if v not in INFER_RIGHT.get(u, [])[:3]], 4)):
+            val = INFER_VALUES[v]
+            prog(f"direct:{u}:{v}", [g, f"let r = g({val});"])
+            prog(f"via-closure:{u}:{v}", [g, "let h = |q| g(q);", f"let r = h({val});"])
+            # EXCLUDED (genuine defect of the unchanged compiler, reported): `apply(|p| array_get(p, 0), [1, 2])` panics in mono.rs
+            # ("conflicting bindings for T: TArray(usize::MAX, int32) vs TArray(2, int32)": the closure parameter keeps the wildcard length)
+            if not (u == "index" and v == "array"):
+                prog(f"via-generic:{u}:{v}", [f"let r = apply(|p| {body}, {val});"])
+            prog(f"nested-closure:{u}:{v}", [f"let g = |p| {{ let k = |q| {INFER_USES[u].format(p='q')}; k(p) }};", f"let r = g({val});"])
+            prog(f"bound-first:{u}:{v}", [f"let g = |p| {{ let t = [p, {val}]; {body} }};"])
+            prog(f"bound-later:{u}:{v}", [f"let g = |p| {{ let t = {body}; let s = [p, {val}]; t }};"])
+    # two applications of one closure / results of two closures unified / the closures themselves unified: a seeded sample of the product
+    for _ in range(600 if quick else 8000):
+        u1, u2 = rnd.choice(uses), rnd.choice(uses)
+        v1, v2 = (rnd.choice(INFER_RIGHT.get(u, vals) if rnd.random() < 0.5 else vals) for u in (u1, u2))
+        g1, g2 = f"let g1 = |p| {INFER_USES[u1].format(p='p')};", f"let g2 = |q| {INFER_USES[u2].format(p='q')};"
+        a, b = INFER_VALUES[v1], INFER_VALUES[v2]
+        form = rnd.choice(["twice", "results-if", "results-array", "results-eq", "closures-array", "closures-if", "compose", "feed"])
+        lab = f"{form}:{u1}+{u2}:{v1}+{v2}"
+        if form == "twice":
+            prog(lab, [g1, f"let r1 = g1({a});", f"let r2 = g1({b});"])
+        elif form == "results-if":
+            prog(lab, [g1, g2, f"let r = if true {{ g1({a}) }} else {{ g2({b}) }};"])
+        elif form == "results-array":
+            prog(lab, [g1, g2, f"let r = [g1({a}), g2({b})];"])
+        elif form == "results-eq":
+            prog(lab, [g1, g2, f"let r = g1({a}) == g2({b});"])
+        elif form == "closures-array":
+            prog(lab, [g1, g2, "let fs = [g1, g2];", f"let r = array_get(fs, 0)({a});"])
+        elif form == "closures-if":
+            prog(lab, [g1, g2, "let f = if true { g1 } else { g2 };", f"let r = f({a});"])
+        elif form == "compose":
+            prog(lab, [g1, g2, "let c = |z| g2(g1(z));", f"let r = c({a});"])
+        else:
+            prog(lab, [g1, g2, f"let r = g2(g1({a}));", f"let s = g1({b});"])
+    return out
 
 
 # ---------------------------------------------------------------- CLI runs
@@ -323,6 +463,22 @@ def run(tier, rep):
         if r.get("ms", 0) > 20000:
             slow.append((q["id"], r["ms"]))
     by_id = {q["id"]: (q, r) for q, r in zip(reqs, res)}
+    # ---- A2e inference stress: closures with un-annotated parameters used as struct / tuple / array / function / operand, applied to
+    # values of the right and of the wrong kind, through other closures, with results unified: the solver must answer every time.
+    # Own (short) time bound and small batches: a compile that hangs leaves a spinning thread behind until its harness process ends.
+    infer = infer_programs(tier, random.Random(sd + 45))
+    ireqs = [{"id": "infer#" + l, "text": t, "dir": memdir} for l, t in infer]
+    ires = []
+    for k in range(0, len(ireqs), 1024):
+        ires += gv_robust("compile", ireqs[k:k + 1024], extra=["--limit-ms", str(INFER_LIMIT_S * 1000)], shards=NCPU)
+    for q, r in zip(ireqs, ires):
+        classes["infer:" + r["verdict"]] += 1
+        records.append(compile_record(q["id"], r))
+        by_id[q["id"]] = (q, r)
+    rep.coverage["inference_stress_programs"] = len(infer)
+    rep.coverage["inference_stress_well_typed"] = classes["infer:ok"]
+    if classes["infer:ok"] < 200 or classes["infer:typer"] < 1000:
+        raise ToolError("vacuity: the inference-stress family has too few accepted or too few rejected programs")
 
     # ---- A5 the web playground's entry points (crates/wasm-app: execute, compile_to_core/mono/anf/go, get_cst/ast/tast): the
     # same library behind its own glue, on the calling thread's stack; a seeded sample of all text inputs and the family programs
@@ -395,6 +551,28 @@ def run(tier, rep):
                 os.makedirs(od, exist_ok=True)
                 cli_jobs.append((f"cli-nest-check#{kind}:{d}", "check", ["check", "--package", "Main", "--input", f, "--interface-path", od, "--output", f"{od}/Main"], False, {"shape": kind, "depth": d}))
                 cli_jobs.append((f"cli-nest-build#{kind}:{d}", "build", ["build", "--package", "Main", "--input", f, "--interface-path", od, "--output", f"{od}/MainB"], False, {"shape": kind, "depth": d}))
+    # ---- C2 every entry point of the binary, `link` included, on packages with one very long function (100..600 statements) and with
+    # deeply nested expressions (50..400 levels) whose values are all used: link reads the core artifact back and runs mono, lift,
+    # ANF and the Go backend over it, on whatever thread and stack the binary gives that sub-command
+    droot = workdir("c04-deep")
+    link_after = {}          # id of a build job -> the link job that consumes its core artifact (run after the pool below)
+    for kind in DEEP_LONG + DEEP_NEST:
+        ladder = ((100, 600) if quick else (100, 200, 300, 400, 500, 600)) if kind in DEEP_LONG else ((50, 400) if quick else (50, 100, 150, 200, 250, 300, 350, 400))
+        for d in ladder:
+            od = f"{droot}/{kind}_{d}/out"
+            os.makedirs(od, exist_ok=True)
+            f = f"{droot}/{kind}_{d}/main.gom"
+            open(f, "w").write(deep(kind, d))
+            about = {"shape": kind, "size": d, "source": f}
+            cli_jobs.append((f"cli-deep-run#{kind}:{d}", "run", ["run", "--dump-go", f], True, about))
+            cli_jobs.append((f"cli-deep-check#{kind}:{d}", "check", ["check", "--package", "Main", "--input", f, "--interface-path", od, "--output", f"{od}/MainC"], False, about))
+            cli_jobs.append((f"cli-deep-build#{kind}:{d}", "build", ["build", "--package", "Main", "--input", f, "--interface-path", od, "--output", f"{od}/Main"], False, about))
+            link_after[f"cli-deep-build#{kind}:{d}"] = (f"cli-deep-link#{kind}:{d}", "link", ["link", "--input", f"{od}/Main.core", "--output", f"{od}/main.go"], f"{od}/main.go", about)
+    # the nesting shapes above, built: link them too
+    for j in list(cli_jobs):
+        if j[0].startswith("cli-nest-build#"):
+            od = os.path.dirname(j[2][-1])
+            link_after[j[0]] = (j[0].replace("cli-nest-build#", "cli-nest-link#"), "link", ["link", "--input", f"{od}/MainB.core", "--output", f"{od}/main.go"], f"{od}/main.go", j[4])
     # ---- D CLI on hostile files
     hroot = workdir("c04-hostile")
     hostile = {"nonutf8.gom": b"fn main() { \xff\xfe }", "empty.gom": b"", "bom.gom": b"\xef\xbb\xbffn main() { () }\n", "nul.gom": b"fn main() { \x00 }",
@@ -424,6 +602,29 @@ def run(tier, rep):
 
     with ThreadPoolExecutor(max_workers=12) as ex:
         outs = list(ex.map(lambda j: cli_run(j[2]), cli_jobs))
+    # the inference-stress programs through the binary's entry points (a sample; a hung process is killed at the bound)
+    iroot = workdir("c04-infer")
+    infer_jobs = []
+    for k, (l, t) in enumerate(infer[:: (9 if quick else 3)]):
+        os.makedirs(f"{iroot}/p{k}/out", exist_ok=True)
+        f = f"{iroot}/p{k}/main.gom"
+        open(f, "w").write(t)
+        infer_jobs.append((f"cli-infer#{l}", "run", ["run", "--dump-go", f], False, {"source": t}))
+        infer_jobs.append((f"cli-infer-check#{l}", "check", ["check", "--package", "Main", "--input", f, "--interface-path", f"{iroot}/p{k}/out", "--output", f"{iroot}/p{k}/out/Main"], False, {"source": t}))
+    with ThreadPoolExecutor(max_workers=12) as ex:
+        outs += list(ex.map(lambda j: cli_run(j[2], timeout=INFER_LIMIT_S), infer_jobs))
+    cli_jobs += infer_jobs
+    # second round: link what was built (a successful link must have written a non-empty Go file)
+    link_jobs = [link_after[j[0]] for j, r in zip(cli_jobs, outs) if j[0] in link_after and r["verdict"] == "ok"]
+    with ThreadPoolExecutor(max_workers=12) as ex:
+        louts = list(ex.map(lambda j: cli_run(j[2]), link_jobs))
+    for j, r in zip(link_jobs, louts):
+        r["stdout_len"] = os.path.getsize(j[3]) if os.path.exists(j[3]) else 0
+    cli_jobs += [(j[0], j[1], j[2], True, j[4]) for j in link_jobs]
+    outs += louts
+    rep.coverage["deep_package_links"] = len(link_jobs)
+    if len([j for j in link_jobs if j[0].startswith("cli-deep-link#")]) < (len(DEEP_LONG) + len(DEEP_NEST)) * 2:
+        raise ToolError("vacuity: most deep packages were not built, so link never saw them")
     for j, r in zip(cli_jobs, outs):
         classes[j[0].split("#")[0] + ":" + r["verdict"]] += 1
         records.append(cli_record(j[0], j[1], r, need_output=j[3] and r["verdict"] == "ok"))
@@ -513,8 +714,15 @@ def run(tier, rep):
         for pr in probs:
             if pr.startswith("no-result"):
                 where = r.get("at") or "?"
+                # generated families whose run ids are stable names (shape:depth, form:use:value): the identity of a timeout carries the name
+                named = rid.split("#")[1] if cls.startswith(("cli-nest", "cli-deep")) else (":".join(rid.split("#")[1].split(":")[:2]) if cls in ("infer", "cli-infer", "cli-infer-check") else "")
                 src_ = rid if cls in ("fam", "artifact") or cls.startswith("cli-") else (cls + ":" + rid.split("#")[-1] if cls.startswith("web-") else cls)
-                ident = f"{pr.split(':')[1]}:{where}:{src_}" if r["verdict"] in ("panic", "signal", "abort") else f"timeout:{cls}:{rid.split('#')[1] if cls.startswith('cli-nest') else ''}".rstrip(":")
+                if cls == "web-fam":
+                    # a family program that panics at the same site in process and behind the playground's glue is one defect: same identity
+                    twin = by_id.get("fam#" + rid.split("#")[1])
+                    if twin is not None and twin[1].get("verdict") == "panic" and twin[1].get("at") == r.get("at"):
+                        src_ = "fam#" + rid.split("#")[1]
+                ident = f"{pr.split(':')[1]}:{where}:{src_}" if r["verdict"] in ("panic", "signal", "abort") else f"timeout:{cls}:{named}".rstrip(":")
             else:
                 ident = f"{pr}:{cls}" + (":" + rid.split("#")[-1] if cls.startswith("web-") else "")
             detail = {"run": rid, "verdict": r["verdict"], "message": (r.get("msg") or r.get("stderr") or "")[:400],
@@ -529,6 +737,7 @@ def run(tier, rep):
         raise ToolError("vacuity: fewer than 20000 runs")
     rep.assumptions += [
         "a run longer than %d s counts as a hang (nested tuples / arrays of depth >= 100 are polynomially slow and are kept below that)" % TIME_LIMIT_S,
+        "the inference-stress programs (< 20 lines each) have a bound of %d s" % INFER_LIMIT_S,
         "in-process runs execute on a 256 MiB stack; stack exhaustion is judged on the real binary (CLI runs)",
         "diagnostics carry no file name, so positions are checked against the text only for single-file inputs",
         "`run` succeeding up to the missing Go toolchain ('failed to execute go') is a success of the compiler",
